@@ -103,6 +103,17 @@ func ReadBodyWithStreaming(zr network.Reader, contentLength, maxBodySize int, ds
 	if contentLength >= 0 && maxBodySize >= contentLength {
 		b, err = appendBodyFixedSize(zr, dst, readN)
 	} else {
+		if contentLength >= 0 {
+			// The body has a declared length above the limit: what is read ahead here fills
+			// dst up to its capacity, whatever the length says. readN+1 bytes are still
+			// inside the body (readN is the limit, which is below the length), so bound the
+			// capacity: bytes of the next message must stay on the connection.
+			// (Only a buffer that is larger is cut down: a fresh one still gets the 1 KiB
+			// block the read-ahead starts with.)
+			if cap(dst) > readN+1 {
+				dst = dst[:0:readN+1]
+			}
+		}
 		b, err = readBodyIdentity(zr, readN, dst)
 	}
 
